@@ -77,6 +77,16 @@ func atomFieldName(recv ssa.Value) string {
 	return "atomic"
 }
 
+// atomOwnerName: the (unqualified, uninstantiated) name of the struct type holding the atomic field.
+func atomOwnerName(recv ssa.Value) string {
+	if fa, ok := recv.(*ssa.FieldAddr); ok {
+		if n, ok := deref(fa.X.Type()).(*types.Named); ok {
+			return n.Obj().Name()
+		}
+	}
+	return ""
+}
+
 func (ai atomInfo) toZ(v Term) Term {
 	if ai.isBool {
 		return ite(v, "1", "0")
@@ -136,16 +146,19 @@ func (x *Exec) atomicTyped(f *frame, in ssa.Instruction, name string, c *ssa.Cal
 		h := x.heapGet(st, ai.comp, ai.sort)
 		st.heap[ai.comp] = x.define(x.fresh(ai.comp), ai.sort, sx("store", h, r, nv))
 		changed := x.define(x.fresh("achg"), "Bool", not(eq(old, nv)))
-		key := sanitize(field)
-		if cn := "Ghost_atom_nch_" + key; x.comps[cn] != "" {
-			curN := x.heapGet(st, cn, "Int")
-			st.heap[cn] = x.define(x.fresh(cn), "Int", ite(changed, sx("+", curN, "1"), curN))
-		}
-		if cn := "Ghost_atom_old_" + key; x.comps[cn] != "" {
-			st.heap[cn] = x.define(x.fresh(cn), "Int", ite(changed, ai.toZ(old), x.heapGet(st, cn, "Int")))
-		}
-		if cn := "Ghost_atom_new_" + key; x.comps[cn] != "" {
-			st.heap[cn] = x.define(x.fresh(cn), "Int", ite(changed, ai.toZ(nv), x.heapGet(st, cn, "Int")))
+		// ghosts are keyed by the field name and also by "Type.field" (to tell apart
+		// equally named counters of different types)
+		for _, key := range []string{sanitize(field), sanitize(atomOwnerName(c.Args[0]) + "." + field)} {
+			if cn := "Ghost_atom_nch_" + key; x.comps[cn] != "" {
+				curN := x.heapGet(st, cn, "Int")
+				st.heap[cn] = x.define(x.fresh(cn), "Int", ite(changed, sx("+", curN, "1"), curN))
+			}
+			if cn := "Ghost_atom_old_" + key; x.comps[cn] != "" {
+				st.heap[cn] = x.define(x.fresh(cn), "Int", ite(changed, ai.toZ(old), x.heapGet(st, cn, "Int")))
+			}
+			if cn := "Ghost_atom_new_" + key; x.comps[cn] != "" {
+				st.heap[cn] = x.define(x.fresh(cn), "Int", ite(changed, ai.toZ(nv), x.heapGet(st, cn, "Int")))
+			}
 		}
 	}
 	switch op {
